@@ -1,4 +1,5 @@
 """C02 — solution-diffusion law at a self-consistent permeate (kinds S + T + A)."""
+import ast
 import itertools
 
 from .. import poly
@@ -116,6 +117,7 @@ def check_df(ck, repo, df):
 
 def check_solver(ck, repo, df, sv):
     n = 0
+    judged = 0
     for (pm_first, pm_second), mode in itertools.product(itertools.product(("notnone", "none"), repeat=2), ("vac", "T", "p")):
         ft, fp = MODES[mode]
         facts = {"permeate_temperature": ft, "permeate_pressure": fp, "calculation_type": "notnone",
@@ -128,8 +130,11 @@ def check_solver(ck, repo, df, sv):
         sck = ck.scoped(label)
         for o in outs:
             n += 1
+            if o.kind == "return" and any(l.kind == "while" and l.entered for l in o.loops):
+                judged += 1
             check_solver_path(sck, repo, df, sv, o, pm_first == "notnone" and pm_second == "notnone")
     ck.floor("solver paths", n, 12)
+    ck.floor("solver paths that iterate and return (the ones D3 judges)", judged, 12)
 
 
 def pure_counters(lp):
@@ -147,6 +152,8 @@ def pure_counters(lp):
 def is_counter_exit(o, lp, sv):
     """The path raises inside the loop body under a test that mentions only iteration counters and constants."""
     node = o.exc.node
+    if not isinstance(node, ast.Raise):
+        return False    # only an explicit raise statement is the iteration cap; a TypeError / IndexError of the loop's own code is not
     if node is None or not (lp.node.lineno <= getattr(node, "lineno", -1) <= getattr(lp.node, "end_lineno", 10 ** 9)):
         return False
     if not o.trace:
@@ -255,8 +262,14 @@ def check_solver_path(ck, repo, df, sv, o, given):
     # (b) guard
     g = lp.guard
     okg = False
-    if isinstance(g, BoolV) and isinstance(g.cond, tuple) and len(g.cond) == 3 and isinstance(g.cond[1], Rat):
-        op, l, r = g.cond
+    gc = g.cond if isinstance(g, BoolV) else None
+    neg = False
+    while isinstance(gc, tuple) and len(gc) == 2 and gc[0] == "not":
+        gc, neg = gc[1], not neg
+    if isinstance(gc, tuple) and len(gc) == 3 and isinstance(gc[1], Rat):
+        op, l, r = gc
+        if neg:
+            op = {"ge": "lt", "gt": "le", "le": "gt", "lt": "ge", "eq": "ne", "ne": "eq"}.get(op, op)
         okg = (op in ("ge", "gt") and l == beta_d and r == prec) or (op in ("le", "lt") and r == beta_d and l == prec)
     ck.ob("D3b", fq, "loop continues while distance >= precision (the caller's precision)", where, okg,
           found=lambda: key_str(g.cond) if isinstance(g, BoolV) else repr(g))
